@@ -88,13 +88,14 @@ pub fn geometry_bdl(s: &Spec) -> String {
         t.push_str("    ..\n");
         t.push_str(&format!("\"P{:02}\" = FLOOR\n    POLYGON = \"{}_Pol\"\n    Z = {}\n    FLOOR-HEIGHT = {}\n    SPACE-HEIGHT = {}\n    MULTIPLIER = 1\n    SHAPE = POLYGON\n    PREVIOUS = \"{}\"\n    ..\n", k + 1, sp, f(k as f32 * s.height), f(s.height), f(s.height), if k == 0 { "Ninguna".to_string() } else { format!("P{:02}", k) }));
         t.push_str(&format!(
-            "\"{}\" = SPACE\n    nCompleto = \"{}\"\n    HEIGHT = {}\n    SHAPE = POLYGON\n    POLYGON = \"{}_Pol\"\n    X = {}\n    Y = {}\n    AZIMUTH = {}\n    TYPE = CONDITIONED\n    SPACE-TYPE = \"Residencial\"\n    SYSTEM-CONDITIONS = \"Residencial\"\n    SPACE-CONDITIONS = \"Residencial\"\n    MULTIPLIER = 1\n    MULTIPLIED = 0\n    perteneceALaEnvolventeTermica = SI\n    POWER = 4.4\n    VEEI-OBJ = 7.000000\n    VEEI-REF = 10.000000\n    ..\n",
+            "\"{}\" = SPACE\n    nCompleto = \"{}\"\n    HEIGHT = {}\n    SHAPE = POLYGON\n    POLYGON = \"{}_Pol\"\n    X = {}\n    Y = {}\n    Z = {}\n    AZIMUTH = {}\n    TYPE = CONDITIONED\n    SPACE-TYPE = \"Residencial\"\n    SYSTEM-CONDITIONS = \"Residencial\"\n    SPACE-CONDITIONS = \"Residencial\"\n    MULTIPLIER = 1\n    MULTIPLIED = 0\n    perteneceALaEnvolventeTermica = SI\n    POWER = 4.4\n    VEEI-OBJ = 7.000000\n    VEEI-REF = 10.000000\n    ..\n",
             sp,
             sp,
             f(s.height),
             sp,
             f(s.offset.0),
             f(s.offset.1),
+            f(space_z(s) as f32),
             f(s.space_az)
         ));
         for i in 0..o.len() {
@@ -213,12 +214,21 @@ pub fn poly_area(o: &[(f32, f32)]) -> f64 {
     (0..n).map(|i| o[i].0 as f64 * o[(i + 1) % n].1 as f64 - o[i].1 as f64 * o[(i + 1) % n].0 as f64).sum::<f64>().abs() / 2.0
 }
 
+/// the level of a space above its storey (the SPACE block's own Z): offset spaces are also raised
+pub fn space_z(s: &Spec) -> f64 {
+    if s.offset.0 != 0.0 {
+        1.2
+    } else {
+        0.0
+    }
+}
+
 pub fn reference(s: &Spec) -> Vec<RefWall> {
     let o = OUTLINES[s.outline];
     let h = s.height as f64;
     let mut v = vec![];
     for k in 0..s.storeys {
-        let z0 = k as f64 * h;
+        let z0 = k as f64 * h + space_z(s);
         let sp = space_name(k);
         for i in 0..o.len() {
             let (a, b) = (o[i], o[(i + 1) % o.len()]);
@@ -343,6 +353,22 @@ pub fn write_synthetic_dirs(root: &str, tier: Tier) {
                 tbl += &format!("\"{}\"\n 80.000000 1.250000 0.000000 0.000000 0.000000 0.000000 180.000000 -5 {} -1\n", e, j);
             }
             std::fs::write(format!("{}/NewBDL_O.tbl", d), tbl).unwrap();
+        }
+    }
+    // project names (the title a user types) of every byte layout: 2-, 3- and 4-byte letters starting at every offset
+    // modulo their width, the empty name and a very long one
+    let mut names: Vec<String> = vec![String::new(), "x".repeat(300)];
+    for (letter, width) in [("ñ", 2usize), ("€", 3), ("𝄞", 4)] {
+        for p in 0..width {
+            names.push(format!("{}{}", "a".repeat(p), letter.repeat(40)));
+        }
+    }
+    let base_text = ctehexml_text(&specs[0]);
+    for (k, name) in names.iter().enumerate().take(tier.pick(names.len(), names.len())) {
+        if let (Some(a), Some(b)) = (base_text.find("<nomPro>"), base_text.find("</nomPro>")) {
+            let d = format!("{}/name{:02}", root, k);
+            std::fs::create_dir_all(&d).unwrap();
+            std::fs::write(format!("{}/name{:02}.ctehexml", d, k), format!("{}<nomPro>{}{}", &base_text[..a], name, &base_text[b..])).unwrap();
         }
     }
     // a directory whose name holds blanks and non-ASCII letters, and one that holds only the KyG file of the pair
